@@ -9,7 +9,7 @@ CFG = dict(
               "filterAttr_rejects_non_point", "crop_wf", "removeNullFaces_wf",
               "splitOnMaterials_wf", "weld_wf", "repeatMesh_wf", "clearAttrs_wf", "setData_wf", "step_wf", "ops_closed", "ops_closed_transforms", "march_blocks_wf", "bowyerWatson_wf", "bowyerWatson_entry_wf", "constrainedBowyerWatson_wf",
               # round 2 (Props/C02More.lean, models Model/MeshMore.lean)
-              "scaleAlongNormal_wf", "scale2D_wf", "normalize2D_wf", "copyAttr_wf", "copyAttr_missing_wf", "scaleAlongNormalNode_total", "cropNode_wf", "thinNodes_wf"],
+              "scaleAlongNormal_wf", "scale2D_wf", "normalize2D_wf", "copyAttr_wf", "copyAttr_missing_wf", "scaleAlongNormalNode_total", "cropNode_wf", "thinNodes_wf", "vertexColorSpace_wf"],
     # one-line instances / records: kernel-checked with the module, not counted as property obligations
     helper_theorems=["translate_wf", "scaleAbout_wf", "scaleMesh_wf", "rotate_wf", "applyTRS_wf", "center_wf", "normalize_wf", "smoothNormals_wf", "flatNormals_wf", "laplacian_wf", "filterAttrOld_breaks_triangles"],
     streams=[dict(name="c02", n=dict(quick=400, thorough=12000))],
@@ -24,7 +24,7 @@ CFG = dict(
              "caller-checked builders whose result the caller completes: outside the theorem; exercised through the oracle c02.holds.wf_raw_setter = (guard -> WF), guard-violating "
              "calls are counted in the notes only (observed: ClearAttributeData on an indexed mesh and wrong-length SetFloatNData/CopyFloatNAttribute return non-WF meshes)",
              "operations without a Lean model, covered ONLY by the WF oracle on every mesh they return (called on generated WF meshes of all topologies): SliceByPlaneWithAttribute / "
-             "SliceByPlaneTransformer, ColorGradingLut, VertexColorSpace, SmoothNormalsImplicitWeld (finite positions only), LaplacianSmoothAlongAxis. (Round 2: ScaleAttributeAlongNormal "
+             "SliceByPlaneTransformer, ColorGradingLut, SmoothNormalsImplicitWeld (finite positions only), LaplacianSmoothAlongAxis. (Round 2: ScaleAttributeAlongNormal "
              "(+Transformer), ScaleAttribute2D (+Transformer), NormalizeAttribute2D (+Transformer) and CopyFloatNAttribute now have models (Model/MeshMore.lean), WF theorems "
              "(Props/C02More.lean) and exact shape correspondence c02.op.{scalealongnormal,scale2d,normalize2d,copyattr}; CopyFloatNAttribute under the guards of copyAttr_wf / "
              "copyAttr_missing_wf, guard-violating calls are compared by shape only)",
